@@ -20,7 +20,8 @@ from pdfminer.pdfinterp import PDFContentParser  # noqa: E402
 from pdfminer.pdftypes import PDFStream  # noqa: E402
 from pdfminer.psparser import PSEOF, PSKeyword, PSLiteral  # noqa: E402
 
-FILTER_NAME = {"FlatePNG": "FlateDecode", "Flate": "FlateDecode", "LZW": "LZWDecode", "A85": "ASCII85Decode", "AHx": "ASCIIHexDecode",
+PREDICTOR_FILTERS = {"FlatePNG": ("Fl", "png"), "FlateTIFF": ("Fl", "tiff"), "LZWPNG": ("LZW", "png"), "LZWTIFF": ("LZW", "tiff")}
+FILTER_NAME = {"FlatePNG": "FlateDecode", "FlateTIFF": "FlateDecode", "LZWPNG": "LZWDecode", "LZWTIFF": "LZWDecode", "Flate": "FlateDecode", "LZW": "LZWDecode", "A85": "ASCII85Decode", "AHx": "ASCIIHexDecode",
                "RL": "RunLengthDecode", "DCT": "DCTDecode", "JPX": "JPXDecode", "JBIG2": "JBIG2Decode", "CCITT": "CCITTFaxDecode"}
 ENC = {"Flate": "Fl", "LZW": "LZW", "A85": "A85", "AHx": "AHx", "RL": "RL"}
 PIX = {"bw": (1, "DeviceGray", 1), "gray": (8, "DeviceGray", 1), "rgb": (8, "DeviceRGB", 3), "cmyk": (8, "DeviceCMYK", 4)}
@@ -65,20 +66,34 @@ def pdf_pixels(pk, w, h, data):
     return rows
 
 
-def encode_chain(chain, data, variant=0, png=None):
+def encode_chain(chain, data, variant=0, geom=None):
     """/Filter [f1 f2 ..] decodes f1 first: encode in reverse.  DCT/JPX/JBIG2/CCITT payloads are opaque blobs.
-    png = (colors, columns, bits) for the FlatePNG layer (PNG predictor, row filter types cycling through all five)."""
+    -> (encoded bytes, [DecodeParms or None per filter]).  A filter with a predictor (PREDICTOR_FILTERS) predicts what its
+    decoding stage outputs: the image rows (geom = (colors, columns, bits)) when it is the last filter of the chain, else the
+    intermediate bytes taken as one row of 8-bit single-colour samples."""
     out = data
-    for f in reversed(chain):
-        if f == "FlatePNG":
-            out = zlib.compress(K.png_predict(out, png[0], png[1], png[2], [0, 1, 2, 3, 4]))
+    parms = [None] * len(chain)
+    for q in range(len(chain) - 1, -1, -1):
+        f = chain[q]
+        if f in PREDICTOR_FILTERS:
+            codec, kind = PREDICTOR_FILTERS[f]
+            colors, columns, bits = geom if q == len(chain) - 1 else (1, len(out), 8)
+            if kind == "png":
+                out = K.png_predict(out, colors, columns, bits, [0, 1, 2, 3, 4]) if columns else out
+                parms[q] = {"Predictor": 10 + (variant + q) % 6, "Colors": colors, "BitsPerComponent": bits, "Columns": max(columns, 1)}
+            else:
+                if bits != 8:
+                    raise MachineryError("TIFF predictor is realised for 8-bit samples only")
+                out = K.tiff_predict(out, colors, columns) if columns else out
+                parms[q] = {"Predictor": 2, "Colors": colors, "BitsPerComponent": 8, "Columns": max(columns, 1)}
+            out = K.encode_layer(codec, out, variant)
         elif f in ENC:
             out = K.encode_layer(ENC[f], out, variant)
-    return out
+    return out, parms
 
 
 def image_xobject(pk, w, h, chain, variant=0):
-    bits, cs, _ = PIX[pk]
+    bits, cs, ncomp = PIX[pk]
     attrs = {"Type": Name("XObject"), "Subtype": Name("Image"), "Width": w, "Height": h, "BitsPerComponent": bits,
              "ColorSpace": Name(cs)}
     if len(chain) == 1:
@@ -87,11 +102,10 @@ def image_xobject(pk, w, h, chain, variant=0):
         attrs["Filter"] = [Name(FILTER_NAME[f]) for f in chain]
     if "JBIG2" in chain:
         raise MachineryError("JBIG2 payloads are not realised")
-    if "FlatePNG" in chain:
-        parms = [({"Predictor": 15, "Colors": PIX[pk][2], "BitsPerComponent": bits, "Columns": w} if f == "FlatePNG" else None) for f in chain]
-        attrs["DecodeParms"] = parms[0] if len(chain) == 1 else parms
     data = image_data(pk, w, h)
-    enc = encode_chain(chain, data, variant, png=(PIX[pk][2], w, bits))
+    enc, parms = encode_chain(chain, data, variant, geom=(ncomp, w, bits))
+    if any(parms):
+        attrs["DecodeParms"] = parms[0] if len(chain) == 1 else parms
     if len(data) > 4000 and w % 2 == 0 and chain == ["LZW"]:
         # realiser self-check: the stream must hold a clear-table code in mid-stream (the table filled up)
         if K.lzw_codes(data).count(256) < 2:
